@@ -33,18 +33,23 @@ TwoUAcc(t, r, below) == IF t = <<>> THEN 0
 
 \* count table by ranks: f[j+1][u+1] = number of ways to pick j sample-1 members among the ranks so far with 2U = u
 DPStep(f, n1, top, t, Bl) ==   \* Bl pool members lie below this rank; j-a of them belong to sample 1
-  TLCEval([jj \in 1..(n1 + 1) |-> [uu \in 1..(top + 1) |->
+  TLCEval([jj \in 1..(n1 + 1) |-> TLCEval([uu \in 1..(top + 1) |->
      LET j == jj - 1  u == uu - 1
          RECURSIVE S(_)
          S(a) == IF a > Min2(t, j) THEN 0
                  ELSE LET du == a * (2 * (Bl - (j - a)) + (t - a)) IN
                       (IF j - a <= Bl /\ u - du >= 0 /\ u - du <= top THEN Ch(t, a) * f[j - a + 1][u - du + 1] ELSE 0) + S(a + 1)
-     IN S(0)]])
+     IN S(0)])])
 RECURSIVE DPRun(_,_,_,_,_,_)
 DPRun(f, n1, top, T, k, Bl) == IF k > Len(T) THEN f ELSE DPRun(DPStep(f, n1, top, T[k], Bl), n1, top, T, k + 1, Bl + T[k])
-CntDP(T, n1) == LET N == SumSeq(T)  top == 2 * n1 * (N - n1)
-                    f0 == [jj \in 1..(n1 + 1) |-> [uu \in 1..(top + 1) |-> IF jj = 1 /\ uu = 1 THEN 1 ELSE 0]]
-                IN DPRun(f0, n1, top, T, 1, 0)[n1 + 1]
+CntDP0(T, n1) == LET N == SumSeq(T)  top == 2 * n1 * (N - n1)
+                     f0 == [jj \in 1..(n1 + 1) |-> [uu \in 1..(top + 1) |-> IF jj = 1 /\ uu = 1 THEN 1 ELSE 0]]
+                 IN DPRun(f0, n1, top, T, 1, 0)[n1 + 1]
+\* count through the smaller sample: choosing the n2 members of sample 2 instead mirrors 2U about n1 n2
+RevSeq(c) == [i \in 1..Len(c) |-> c[Len(c) + 1 - i]]
+CntDP(T, n1) == LET n2 == SumSeq(T) - n1 IN IF n1 <= n2 THEN CntDP0(T, n1) ELSE RevSeq(CntDP0(T, n2))
+\* the exact check is feasible when C(N, min(n1,n2)) fits a TLC integer and the table is small
+Feasible(n1, n2) == LET k == Min2(n1, n2) IN n1 + n2 <= DPMaxN \/ (k <= 3 /\ n1 + n2 <= 64) \/ (k <= 5 /\ n1 + n2 <= 34)
 RECURSIVE Prefix(_,_)
 Prefix(c, i) == IF i = 0 THEN 0 ELSE c[i] + Prefix(c, i - 1)
 
@@ -79,8 +84,8 @@ ReplyOK(ev, a) ==
        /\ \/ PInRange(ev)
           \/ /\ ~PInRange(ev) /\ ev.alt = 0 /\ a.exact /\ a.ties /\ ev.p.s > 0   \* known finding: two-sided exact P above 1
              /\ PrintT("KNOWN-SIG stats/utest.go:LocationDiffers/exact")
-       /\ (a.exact /\ a.n1 + a.n2 <= DPMaxN) =>
-            LET c == CntDP(a.T, a.n1)  den == Ch(a.n1 + a.n2, a.n1)
+       /\ (a.exact /\ Feasible(a.n1, a.n2)) =>
+            LET c == CntDP(a.T, a.n1)  den == Ch(a.n1 + a.n2, Min2(a.n1, a.n2))
                 le == Prefix(c, a.twoU + 1)  ge == den - Prefix(c, a.twoU)
                 top == Len(c) - 1
                 two == Min2(den, 2 * Min2(le, ge))
